@@ -190,8 +190,10 @@ class GenericCallAdapter(Adapter):
 
         old_node_kwargs = {kw.arg: kw.value for kw in old_node.keywords}
 
+        # positions are indices into the old arguments (positional + keywords)
+        old_keys = [kw.arg for kw in old_node.keywords]
+
         to_insert = []
-        insert_pos = 0
         for key, new_value_element in new_kwargs.items():
             if new_value_element.is_default:
                 continue
@@ -209,6 +211,9 @@ class GenericCallAdapter(Adapter):
                 ).assign(old_value_element, node, new_value_element.value)
 
                 if to_insert:
+                    # in front of the known argument
+                    insert_pos = len(old_node.args) + old_keys.index(key)
+
                     for key, value in to_insert:
 
                         yield CallArg(
@@ -222,9 +227,8 @@ class GenericCallAdapter(Adapter):
                         )
                     to_insert = []
 
-                insert_pos += 1
-
         if to_insert:
+            insert_pos = len(old_node.args) + len(old_keys)
 
             for key, value in to_insert:
 
